@@ -520,7 +520,13 @@ def check_config_handover(ctx, facts, cfg):
                 n += 1
                 pn = fn.param_names()
                 usz = [x for i, x in enumerate(pn) if fn.body.local_ty(i + 1) == 'usize']
-                got = [fn.body.canon_op(a) for a in t['args'][1:4]]
+                # which reset parameter is which follows the roles (positions today; by flow when the signature was regrouped)
+                rp_ = getattr(RL, 'reset_param_roles', {}).get(side) or {}
+                inv_ = {r_: i_ for i_, r_ in rp_.items()}
+                pos_ = [inv_.get('original_count', 1), inv_.get('recovery_count', 2), inv_.get('shard_bytes', 3)]
+                if max(pos_) >= len(t['args']):
+                    pos_ = [1, 2, 3]
+                got = [fn.body.canon_op(t['args'][i_]) for i_ in pos_]
                 want = [('param', x) for x in usz[:3]]
                 # the caller's own (o, r, sb) must in turn be the public trait arguments: callers are reached by
                 # forwarding from RateEncoder/RateDecoder::{new,reset} (checked by C08.c: validate on the same triple)
